@@ -33,7 +33,13 @@ def dumpRaw : Raw → String
   | .f64 sc bs => s!"f8{sv sc}:{joinOr "," (bs.map fun b => if sc then hexOfNat 16 b else hexOfFloat (Float.ofBits (UInt64.ofNat b)))}"
   | .str s => s!"s:{hexB s}"
   | .strs ss => s!"S:{joinOr "," (ss.map hexB)}"
-  | .dates sc ds => s!"d{sv sc}:{joinOr "," (ds.map hexB)}"
+  | .dates sc ds =>
+    -- with the century the two-digit year stands for (69..99 are 19yy, 00..68 are 20yy)
+    let century (d : Bytes) : Bytes :=
+      match d with
+      | y0 :: y1 :: _ => if (y0.toNat - 48) * 10 + (y1.toNat - 48) ≥ 69 then [49, 57] else [50, 48]
+      | _ => []
+    s!"d{sv sc}:{joinOr "," (ds.map fun d => hexB (century d ++ d))}"
 
 def dumpSamples (ss : List (List Float)) : String :=
   joinOr "," (ss.map fun s => String.intercalate "." (s.map hexOfFloat))
